@@ -62,7 +62,7 @@ package proxy
 
 // A cacheable 200 is stored under the request's key with the validators and headers of
 // this response; the entry handed back is the stored one.  Anything else is not stored.
-//@ props C04 C06 C09 C16 C15 C02
+//@ props C04 C06 C09 C16 C15 C02 C03
 //@ func fetcher.handleUpstream200
 //@   nopanic
 //@   assigns cache. map_map_cache.CacheKey atomic.Int64 ghost:mapsum ghost:fsinode ghost:jsize ghost:jexp ghost:handleinode ghost:isize ghost:icontent
@@ -77,6 +77,8 @@ package proxy
 //@   ensures [C09] err != nil ==> cached == nil && iserr(err, ErrCacheResponseFailed) && !iserr(err, ErrSendRequestFailed) && !iserr(err, ErrUpdateCacheMetadata)
 //@   ensures [C04] cached != nil ==> resp.StatusCode == 200 && resp.Request.Method == "GET"
 //@   ensures specFetchErr(err)
+//@   ghost callsite-requires [C03] GetExpiresOrDefault arg_forceDefaultCacheMaxAge == cfgval(f.cfg.Proxy.CachePolicy.ForceDefaultMaxAge) && arg_defaultCacheMaxAge == cfgval(f.cfg.Proxy.CachePolicy.DefaultMaxAge)
+//@   ghost callsite-requires [C03] Cache arg_expires == maxAge
 
 // 416 from the origin: once retried without the Range header (unless noRetry).
 //@ props C09 C16 C02
@@ -224,7 +226,7 @@ package proxy
 // shared one it waited for; and the shared run is never failed by the cancellation of the
 // request context of the one client that happens to run it (upcancels: origin requests
 // that failed because their own context was cancelled).
-//@ props C05 C09 C16 C15 C02
+//@ props C05 C09 C16 C15 C02 C01
 //@ func fetcher.dedupFetch
 //@   ghost callsite-requires [C02] Do sid(arg_key) == sid(key.Hex)
 //@   ghost callsite-requires [C02] getFromCacheOrFetch keyid(arg_key) == keyid(key)
@@ -242,7 +244,7 @@ package proxy
 //@   ensures [C09] err == nil ==> specFetchShape(fetched)
 //@   ensures [C09] err != nil ==> upfails > old(upfails) || sferrs > old(sferrs)
 //@   ensures [C05] err == nil && fetched.Type == 1 ==> !old(allocated(fetched.Direct.Response))
-//@   ensures [C05] err == nil && fetched.Type == 0 && fetched.Cached.Coalesced ==> !old(allocated(fetched.Cached.Entry))
+//@   ensures [C05,C01] err == nil && fetched.Type == 0 && fetched.Cached.Coalesced ==> !old(allocated(fetched.Cached.Entry))
 //@   ensures upfails >= old(upfails) && upcalls >= old(upcalls)
 //@   ensures sferrs >= old(sferrs)
 //@   ensures specReqOK(req) && req.ctx == old(req.ctx) && req.Body == old(req.Body)
@@ -274,6 +276,7 @@ package proxy
 //@   requires specEntryShape(cached)
 //@   ensures iserr(result, ErrIfRangeMismatch) ==> specEntryShape(cached)
 //@   ensures req.Body == old(req.Body)
+//@   requires [C16] hijacked(r) == 0
 
 // An If-Range does not match when it is an entity tag different from the stored
 // one, or a date earlier than the stored Last-Modified.
@@ -334,6 +337,7 @@ package proxy
 //@   ensures (forall w any :: w != r ==> httpwrites(w) == old(httpwrites(w)) && httpstatus(w) == old(httpstatus(w)) && respbody(w) == old(respbody(w)))
 //@   ensures req.Method != "HEAD" ==> respbody(r) == ident(resp)
 //@   ensures [C09] result != nil ==> ioerr(result)
+//@   requires [C16] hijacked(r) == 0
 
 //@ props C03 C16
 //@ func fetchResult.getFetchInfo
@@ -360,6 +364,7 @@ package proxy
 //@   ensures [C09] result != nil ==> upfails > old(upfails) || sferrs > old(sferrs) || iserr(result, ErrRangeNotSatisfiable) || ioerr(result)
 //@   ensures [C09] upfails == old(upfails) && sferrs == old(sferrs) && !ioerr(result) ==> httperrs(r) == old(httperrs(r)) || (httpstatus(r) == 416 && iserr(result, ErrRangeNotSatisfiable))
 //@   ensures req.Body == old(req.Body)
+//@   requires [C16] hijacked(r) == 0
 
 // ---------------------------------------------------------------- tunnels (C10)
 
@@ -380,6 +385,7 @@ package proxy
 //@   ensures [C09] result != nil ==> upfails > old(upfails) || sferrs > old(sferrs) || iserr(result, ErrRangeNotSatisfiable) || ioerr(result)
 //@   ensures [C09] upfails == old(upfails) && sferrs == old(sferrs) && !ioerr(result) ==> httperrs(r) == old(httperrs(r)) || (httpstatus(r) == 416 && iserr(result, ErrRangeNotSatisfiable))
 //@   ensures proxyReq.Body == old(proxyReq.Body)
+//@   requires [C16] hijacked(r) == 0
 
 // Every request read from a CONNECT tunnel is answered through a responder of its own, and
 // all requests of a tunnel are read through the one buffered reader created for it (a second
@@ -394,6 +400,7 @@ package proxy
 //@   loop 1 invariant specProxy(p) && tlsConn != nil
 //@   loop 1 invariant [C10] connreader(tlsConn) == 0 || connreader(tlsConn) == connReader
 //@   loop 1 invariant [C10] bodypending(connReader) == 0
+//@   requires [C16] hijacked(r) == 0
 
 // ---------------------------------------------------------------- relaying (C08)
 
